@@ -5,6 +5,7 @@ import (
 	"go/constant"
 	"go/token"
 	"go/types"
+	"os"
 	"sort"
 	"strings"
 
@@ -703,6 +704,9 @@ func payloadBounded(val ssa.Value, at ssa.Instruction, isMax func(ssa.Value) boo
 			if a.Kind == "cmp" && (a.Op == token.LEQ || a.Op == token.LSS) && isMax(a.Y) && affSame(symAff(a.X, 0), la) {
 				return true, "len(payload) " + a.Op.String() + " maxStreamUnitWrite by the guard " + a.String()
 			}
+			if a.Kind == "cmp" && (a.Op == token.GEQ || a.Op == token.GTR) && isMax(a.X) && affSame(symAff(a.Y, 0), la) {
+				return true, "maxStreamUnitWrite " + a.Op.String() + " len(payload) by the guard " + a.String()
+			}
 		}
 	}
 	// in[n:] under guard len(in)-n <= max
@@ -713,6 +717,17 @@ func payloadBounded(val ssa.Value, at ssa.Instruction, isMax func(ssa.Value) boo
 					if lc, isC := bo.X.(*ssa.Call); isC && calleeName(&lc.Call) == "builtin.len" && lc.Call.Args[0] == sl.X && (sl.Low == nil || sameValueOrLoad(bo.Y, sl.Low)) {
 						return true, "in[n:] under len(in)-n <= maxStreamUnitWrite"
 					}
+				}
+			}
+		}
+		if os.Getenv("CLOAKCHECK_DEBUG") != "" {
+			if la, okL := sliceLenAff(sl); okL {
+				fmt.Println("DEBUG payloadBounded len form", la.String())
+			}
+			for _, a := range append(AtomsAt(at), edge...) {
+				fmt.Println("DEBUG payloadBounded atom", a.String(), a.Kind, a.Op)
+				if a.Kind == "cmp" {
+					fmt.Println("   X:", symAff(a.X, 0).String(), " Y:", symAff(a.Y, 0).String())
 				}
 			}
 		}
